@@ -3,9 +3,11 @@ package c19
 import (
 	"context"
 	"crypto/tls"
+	"fmt"
 	"io"
 	"net/http"
 	"net/http/httptest"
+	"runtime/debug"
 	"strings"
 	"sync"
 	"time"
@@ -48,6 +50,8 @@ type instance struct {
 	// viaClient is called for every request that reached this instance through a client's round
 	// tripper (the scenario books acceptances of such requests there)
 	viaClient func(c *call)
+	// onPanic is called when ServeHTTP panicked
+	onPanic func(c *call)
 
 	mu      sync.Mutex
 	opaques map[string]*issuedOpaque
@@ -94,6 +98,7 @@ type call struct {
 	at       time.Time
 	status   int
 	respHdr  http.Header
+	panicked string  // ServeHTTP panicked (value + stack)
 	accepted bool    // Next was invoked
 	peer     peer.ID // with this peer
 	v        verdict
@@ -130,7 +135,17 @@ func (in *instance) serveReq(req *http.Request, sni string) *call {
 	}
 	req = req.WithContext(context.WithValue(req.Context(), callKey{}, c))
 	rec := httptest.NewRecorder()
-	in.auth.ServeHTTP(rec, req)
+	func() {
+		defer func() {
+			if p := recover(); p != nil {
+				c.panicked = fmt.Sprintf("%v\n%s", p, debug.Stack())
+			}
+		}()
+		in.auth.ServeHTTP(rec, req)
+	}()
+	if c.panicked != "" && in.onPanic != nil {
+		in.onPanic(c)
+	}
 	c.status = rec.Code
 	c.respHdr = rec.Header()
 	in.recordIssued(c)
@@ -356,13 +371,9 @@ func (in *instance) roundTrip(req *http.Request) (*http.Response, *call) {
 // ("" if none): a call answered from the client's token cache re-reports that id by design.
 func judgeClient(s peer.ID, cl *ident, host string, log []exchange, seen map[string]bool, tokenPeer peer.ID) verdict {
 	var challenges, sigs, keys []string
-	usedBearer := false
 	for _, ex := range log {
 		pm := looseParams(ex.authz)
 		challenges = append(challenges, pm["challenge-server"]...)
-		if len(pm["bearer"]) > 0 {
-			usedBearer = true
-		}
 		for _, h := range []string{"WWW-Authenticate", "Authentication-Info"} {
 			rp := looseParams(ex.hdr.Values(h))
 			sigs = append(sigs, rp["sig"]...)
@@ -370,8 +381,8 @@ func judgeClient(s peer.ID, cl *ident, host string, log []exchange, seen map[str
 		}
 	}
 	if len(challenges) == 0 {
-		// no handshake in this call: only the token cache can have produced the id
-		if usedBearer && tokenPeer != "" && s == tokenPeer {
+		// no handshake in this call: only the client's token cache can have produced the id
+		if tokenPeer != "" && s == tokenPeer {
 			return verdict{ok: true, how: "token-cache"}
 		}
 		return verdict{reason: "no-challenge-sent-and-no-established-token"}
